@@ -226,6 +226,8 @@ def dec_fraction(txt):
     if not m or (m.group(2) == "" and m.group(3) is None):
         return None
     sign, ip, fp, ex = m.groups()
+    if (ex and abs(int(ex)) > 60) or len(ip) > 60:
+        return "huge"
     v = Fraction(int(ip or "0"))
     if fp:
         v += Fraction(int(fp), 10 ** len(fp))
@@ -287,6 +289,9 @@ def c10_case(c, agg):
             continue
         sv, ov = dec_fraction(src), dec_fraction(otxt)
         if sv is None:
+            continue
+        if sv == "huge" or ov == "huge":
+            agg["c10_out_of_f32_range"] += 1
             continue
         agg["c10_tokens"] += 1
         if k == "dim" and not is_rpx:
@@ -416,7 +421,7 @@ def c19_case(c, agg):
                     ok = True   # sign comment points at the class name that triggered it
                 elif S == "C" and o["convert_host"] and (D in ("S", "cs", "com", "(d 61)") or dk in ("i", "s")):
                     ok = True   # synthesised host selector points at the rule's block
-                elif sk == "F" and tok_strings(S)[0] in ("layer", "supports") and D in ("P", "C"):
+                elif sk == "F" and tok_strings(S)[0] in ("layer", "supports") and D in ("P", "C", "cp", "cc"):
                     ok = True   # wrappers synthesised from an @import condition
                 elif (sl, sc) in import_starts and (D in ("C", "cc") or dk in ("at", "c")):
                     ok = True   # @media wrapper / placeholder point at the start of the import
@@ -541,7 +546,10 @@ def analyse_all(cases, stats):
                         j, ei[j] if j < len(ei) else "<end>", ee[j] if j < len(ee) else "<end>"), c)
 
         # ---------------- C10
-        for b in c10_case(c, agg):
+        # numeric tokens are paired by order, which is sound only when the token streams conform
+        if not (wf and conf_impl):
+            agg["c10_cases_skipped_nonconforming"] += 1
+        for b in (c10_case(c, agg) if wf and conf_impl else []):
             what, src, want, got, in_known = b
             if in_known:
                 known_hits["C10"]["D16"] += 1
